@@ -210,5 +210,5 @@ pub fn c20(ctx: &Ctx) -> Report {
         runs.push(SliceRun { slice: s, depth: ctx.tier.pick(6, 7) });
     }
     let req = ["response delivered", "timed out"];
-    run_slices(ctx, runs, &req, "every unique state's history of the union slice is replayed (1) unchanged on a fresh agent, (2) with the time base shifted by 1 ms, 1 day and 10^9 ms, (3) on a freshly spawned thread, (4) interleaved step by step with an unrelated agent on the other transport; observations (with instants relative to the base) must be identical", None)
+    run_slices(ctx, runs, &req, "every unique state's history of the union slice is replayed on a fresh thread that never ran an agent (reference) and then, on a second fresh thread in this order, (1) with the time base shifted by 10^9 ms, 1 day and 1 ms, (2) unchanged after those later histories, (3) interleaved step by step with an unrelated agent on the other transport running an hour ahead, (4) with the time base at the wall clock and an hour before it, and (5) with the agent handed to another thread half way (that thread drove an unrelated agent an hour ahead before); observations (with instants relative to the base) must be identical", None)
 }
